@@ -215,7 +215,7 @@ class C05Cuckoo(CuckooWorld):
 SPEC = PropSpec(
     prop="C05",
     scenarios=[(5, C05Struct), (2, C05Cuckoo)],
-    runs={"quick": 12000, "thorough": 400000},
+    runs={"quick": 30000, "thorough": 800000},
     rule=("one run = one of the 12 exportable classes in a seeded configuration, a mutation history reaching grown / "
           "rotated / evicted / expanded / removed-from / saturated states, and restart faults at seeded points: the "
           "structure is exported over EVERY channel it offers (bytes, path in 4 spellings onto fresh or stale "
